@@ -176,7 +176,8 @@ def admix_case(draw):
             rows.append([v / s for v in w])
     if kind == 'bad':
         p = draw(st.integers(0, nd - 1))
-        rows[p] = [v * draw(st.sampled_from([0.5, 0.9, 1.1, 2.0])) for v in rows[p]]
+        f = draw(st.sampled_from([0.5, 0.9, 1.1, 2.0]))        # one factor for the whole row, so that it sums to f, not 1
+        rows[p] = [v * f for v in rows[p]]
     return dict(c, props=rows, kind=kind)
 
 
